@@ -104,7 +104,10 @@ Definition wbstep (s : wbstate) (e : wbev) : option wbstate :=
             else (* nobody listens: allowed for an old obligation, or when no waiter can have been left behind *)
               if can_drop (bobs s) (bstale s) (bsig s) (bsignew s) t
               then Some (mkWB (bst s) (bcur s) (blen s) (drop t (bobs s)) (bsig s) (bsignew s) (bopen s) (bstale s))
-              else None)
+              else (* the notify is lost and t is the only one on the hook: it stays there (Stop goes on
+                      to broadcast itself after a Pause whose notify found the channel closed by a
+                      concurrent Restart); if it never does, the waiters are stale at rest *)
+                Some s)
       else (* a notify nobody owed *)
         Some (mkWB (bst s) (bcur s) (blen s) (bobs s) (bsig s || bopen s) (bsignew s) (bopen s) (bstale s))
   | WRecv t =>
